@@ -52,7 +52,7 @@ impl Args {
             ip_groups: 0,
             ex_groups: 0,
             cap_ms: 0,
-            mem_cap: 4 << 30,
+            mem_cap: 8 << 30,
             steps: 20_000,
             selftest_seeds: 0,
         };
